@@ -93,7 +93,7 @@ def run_history(hist: dict):
         spw = {'sul': base.get('sul', {}), 'lfs': base.get('lfs', [{}]), 'ops': ops, 'write': ph.get('write', {})}
         data_arg = '__auto__' if shared is None else shared
         spw['write'] = dict(spw['write'], source=source, **{k: v for k, v in base.get('write', {}).items()
-                                                             if k in ('perm_seed', 'extra', 'struct_variant')})
+                                                             if k in ('perm_seed', 'extra', 'struct_variant', 'h5name')})
         if ph.get('arrays'):
             # this write gets its own data through the dict passed to write()
             import numpy as np
@@ -102,6 +102,18 @@ def run_history(hist: dict):
                 op = ops[int(i)]
                 dd[op.get('dataset_name') or op['name']] = S.make_array(a)
             data_arg = dd
+            if hist.get('arrays_via') == 'hdf5-replaced':
+                # ... or through the HDF5 file at the SAME path as before, replaced on disk by a file with the new data
+                import h5py
+                for i, arr in b.arrays.items():
+                    op = ops[int(i)]
+                    dd.setdefault(op.get('dataset_name') or op['name'], arr)
+                h5path = os.path.join(harness.scratch_dir(), base['write'].get('h5name', 'data.h5'))
+                with h5py.File(h5path + '.new', 'w') as f:
+                    for key, arr in dd.items():
+                        f.create_dataset(key.lstrip('/'), data=np.ascontiguousarray(arr), dtype=arr.dtype)
+                os.replace(h5path + '.new', h5path)
+                data_arg = h5path
         hc = ph.get('hc', False)
         if hc:
             from dliswriter import high_compatibility_mode
